@@ -59,7 +59,7 @@ def run(run):
         run.obligations_for(["Csvq.Props.C13"])
 
     before = len(run.problems)
-    stats = run.stream("c13", 48 if q else 3000, race=True, timeout=1500)
+    stats = run.stream("c13", 48 if q else 1500, race=True, timeout=1500)
     # tie the race reports to the static classification: a report one of whose two accesses is at a
     # line the facts call `unguarded` confirms that site (same signature); any other report means the
     # classification (or an unanalysed callee) is wrong and keeps its own signature law:race:<frames>
